@@ -478,20 +478,47 @@ fn main() {
         }
         let text = std::fs::read_to_string(&f).unwrap_or_default();
         let mut expect_known: Option<String> = None;
+        let mut must_reject: Option<String> = None;
         for (ln, line) in text.lines().enumerate() {
             let line = line.trim();
             if let Some(sig) = line.strip_prefix("//! known:") {
                 expect_known = Some(sig.trim().to_string());
                 continue;
             }
+            if let Some(why) = line.strip_prefix("//! must-reject:") {
+                must_reject = Some(why.trim().to_string());
+                continue;
+            }
             if line.starts_with("//! end") {
                 expect_known = None;
+                must_reject = None;
                 continue;
             }
             if line.is_empty() || line.starts_with("//") {
                 continue;
             }
             let origin = format!("corpus:{}:{}", f.file_name().unwrap().to_string_lossy(), ln + 1);
+            if let Some(why) = &must_reject {
+                // a program the compiler must refuse (the repair of a miscompile was to reject the shape)
+                ev.case(&origin, true);
+                match ck.imp.run(line) {
+                    Impl::Rejected(_) => ev.hit("corpus.must-reject.rejected"),
+                    other => {
+                        let got = match other {
+                            Impl::Ran(v) => format!("ran: {v}"),
+                            Impl::Timeout => "timeout".to_string(),
+                            Impl::Rejected(_) => unreachable!(),
+                        };
+                        ev.violation(
+                            "corpus kind=accepted-program-that-must-be-rejected",
+                            &format!("{origin}: `{line}` is compiled and run ({got}); it must be rejected: {why}"),
+                            json!({"source": line, "implementation": got, "expected": "compile error", "why": why}),
+                            true,
+                        );
+                    }
+                }
+                continue;
+            }
             match from_real::convert_source(line) {
                 Ok(p) => {
                     let (v, m, i) = ck.check(&p);
@@ -629,7 +656,7 @@ fn main() {
         let mut values_equal = 0u64;
         for i in 0..nfrag {
             let mut r = Rng::for_case(opts.seed ^ 0xF1A6, i);
-            let mut g = frag1::Gen { r: &mut r, env: vec![], counter: 0, blocks: i % 2 == 1, fns: i % 4 == 3, body_depth: 0 };
+            let mut g = frag1::Gen { r: &mut r, env: vec![], counter: 0, blocks: i % 2 == 1, fns: i % 4 == 3, body_depth: 0, rec: i % 8 == 7 };
             let seq = g.seq(2);
             let src = frag1::src_seq(&seq);
             let unit = match compile_program(&src, &b) {
@@ -646,7 +673,13 @@ fn main() {
             // with blocks to its extension Compile2
             let with_blocks = case.chains.as_deref().map(|c| c.contains("(blk")).unwrap_or(false);
             let with_fns = case.chains.as_deref().map(|c| c.contains("(fnlit") || c.contains("(call")).unwrap_or(false);
-            let (creq, ereq) = if with_fns {
+            let with_tail = case.chains.as_deref().map(|c| c.contains("(tail)") || c.contains("(bcall")).unwrap_or(false)
+                || case.fns.contains("(tail)")
+                || case.fns.contains("(bcall");
+            let (creq, ereq) = if with_tail {
+                // `^` and builtin calls: Compile4 (correctness proved in C02Tail)
+                (format!("compile4 {}", case.fns), format!("eval4 60 {} {}", case.bis, case.fns))
+            } else if with_fns {
                 (format!("compile3 {}", case.fns), format!("eval3 60 {}", case.fns))
             } else if with_blocks {
                 ("compile2".to_string(), "eval2".to_string())
@@ -680,10 +713,19 @@ fn main() {
                 if case.real.contains(" call") {
                     ev.hit("fragment1.with-call");
                 }
+                if case.real.contains("tailself") {
+                    ev.hit("fragment1.with-tail-call");
+                }
+                if case.real.contains("builtin") {
+                    ev.hit("fragment1.with-builtin-call");
+                }
                 if case.real.contains("jump-") && case.real.contains("reset") && case.real.split(' ').any(|w| w.starts_with("jump-") && w != "jump-6" && w != "jump-7" && w != "jump-13") {
                     ev.hit("fragment1.with-cleanup-block");
                 }
-                if i < 3 {
+                if opts.has_flag("--dump-frag1") && with_tail {
+                    eprintln!("FRAG1-TAIL\t{}", src);
+                }
+                if i < 3 || (with_tail && i < 64) {
                     ev.sample(json!({"fragment1_source": src, "instructions": case.real}));
                 }
                 // the meaning function of the correctness theorem vs the value the real VM computes
